@@ -1,13 +1,19 @@
 """C13 - parallel execution: ParallelExec.tla (PlusCal) checked by TLC, bound to the real executor by
 (1) spec->code: every completion order TLC finds is forced on the real thread back-end (gated workers),
-(2) code->spec: free-running thread executions recorded at the queues' linearization points and
-    validated by ParallelExecTrace.tla, (3) process back-end outcomes checked against the spec's
-    terminal states, (4) client equivalences (parallel DOE / chain / linearization / FD vs sequential).
+    single executions exhaustively, then HISTORIES of consecutive executions on ONE executor object
+    (every terminal state of an execution - normal end, early stop by a re-raised exception with results
+    still in flight - followed by further executions), on the thread and on the process back-end,
+(2) code->spec: free-running thread executions (several per object) recorded at the queues'
+    linearization points and validated by ParallelExecTrace.tla,
+(3) process back-end outcomes checked against the spec's terminal states,
+(4) client equivalences (parallel DOE / chain / linearization / FD / Jacobi MDA vs sequential).
 """
 from __future__ import annotations
 
-import itertools
+import contextlib
+import io
 import json
+import os
 import queue as _queue
 import random
 import threading
@@ -17,16 +23,18 @@ import types
 from ..core import Check, MachineryError, main
 
 INVS = ["Positional", "SlotIsolation", "CallbackMatches", "CallbackOnce", "CallbackAll", "RunOnce",
-        "RaiseIff", "ReturnXorRaise", "NoLostResult"]
+        "RaiseIff", "ReturnXorRaise", "NoLostResult", "ExecutionsIndependent"]
+_LOCK = threading.Lock()
 
 
-def cfg(nt, nw, *, view=True, liveness=True, orders=False, trace=False):
-    s = f"CONSTANTS NTasks = {nt}\n NWorkers = {nw}\n"
+def cfg(counts, nw, *, nexec=1, persist=False, view=True, liveness=True, orders=False, trace=False, invs=None):
+    s = (f"CONSTANTS TaskCounts = {{{', '.join(map(str, sorted(counts)))}}}\n NWorkers = {nw}\n NExec = {nexec}\n"
+         f" PersistQueues = {'TRUE' if persist else 'FALSE'}\n")
     if trace:
         s += "INIT TInit\nNEXT TNext\nCONSTRAINT Reach\nPOSTCONDITION Accepted\nCHECK_DEADLOCK FALSE\n"
     else:
         s += "SPECIFICATION Spec\n"
-    for i in INVS:
+    for i in (INVS if invs is None else invs):
         s += f"INVARIANT {i}\n"
     if orders:
         s += "INVARIANT Orders\n"
@@ -35,6 +43,35 @@ def cfg(nt, nw, *, view=True, liveness=True, orders=False, trace=False):
     if liveness and not trace:
         s += "PROPERTY Liveness\n"
     return s
+
+
+def tlc_many(ck: Check, jobs, width=4):
+    """Run TLC jobs (module, cfg, kwargs) `width` at a time; results in the order of the jobs."""
+    from concurrent.futures import ThreadPoolExecutor
+
+    def one(job):
+        k, (module, text, kw) = job
+        kw = dict(kw)
+        count = kw.pop("count", True)
+        r = ck.tlc(module, text, count=False, tag=f"j{k}-{time.time_ns() % 10 ** 9}", **kw)
+        if count:
+            with _LOCK:
+                ck.states += r.distinct
+                ck.transitions += r.generated
+        return r
+
+    with ThreadPoolExecutor(width) as pool:
+        return list(pool.map(one, list(enumerate(jobs))))
+
+
+def patience(base=20.0):
+    """A generous, load-aware bound on the time a step of a gated replay may take (seconds): the machine
+    may be shared, a time-out must never be mistaken for a behaviour of gemseo."""
+    try:
+        load = os.getloadavg()[0] / (os.cpu_count() or 1)
+    except OSError:  # pragma: no cover
+        load = 1.0
+    return base * max(1.0, load)
 
 
 # ------------------------------------------------------------------ instrumented queue (test double)
@@ -66,7 +103,8 @@ def make_queue_ns(rec: Recorder):
     class LoggingQueue(_queue.Queue):
         def __init__(self, *a, **k):
             super().__init__(*a, **k)
-            self.role = "in" if not rec.queues else "out"
+            # `execute` creates its input queue, then its output queue
+            self.role = "in" if len(rec.queues) % 2 == 0 else "out"
             rec.queues.append(self)
 
         # _put/_get run while the queue's mutex is held: the linearization point
@@ -90,6 +128,68 @@ def make_queue_ns(rec: Recorder):
     return types.SimpleNamespace(Queue=LoggingQueue, Empty=_queue.Empty, Full=_queue.Full)
 
 
+class ObsQueue:
+    """Test double of a managed queue (process back-end): delegates to the real proxy and counts the
+    completed puts on the output queue in shared memory, so that the controller releases the next gate
+    only when the previous result IS in the queue (the forced completion order is the queue order)."""
+
+    def __init__(self, proxy, role, nput):
+        self._proxy = proxy
+        self._role = role
+        self._nput = nput
+
+    def put(self, item, *a, **k):
+        self._proxy.put(item, *a, **k)
+        if self._role == "out":
+            with self._nput.get_lock():
+                self._nput.value += 1
+
+    def get(self, *a, **k):
+        return self._proxy.get(*a, **k)
+
+    def task_done(self):
+        return self._proxy.task_done()
+
+    def qsize(self):
+        return self._proxy.qsize()
+
+
+class ObsManager:
+    def __init__(self, real, nput):
+        self._real = real
+        self._nput = nput
+        self._n = 0
+
+    def Queue(self, *a, **k):  # noqa: N802
+        role = "in" if self._n % 2 == 0 else "out"
+        self._n += 1
+        return ObsQueue(self._real.Queue(*a, **k), role, self._nput)
+
+    def list(self, *a, **k):
+        return self._real.list(*a, **k)
+
+    def __getattr__(self, name):
+        return getattr(self._real, name)
+
+
+@contextlib.contextmanager
+def observed_processes():
+    """Substitute the observing manager inside the harness process; yields the shared put counter."""
+    import multiprocessing as mp
+
+    import gemseo.core.parallel_execution.callable_parallel_execution as mod
+
+    nput = mp.get_context("fork").Value("i", 0)
+    saved = mod.get_multi_processing_manager
+    real = saved()
+    man = ObsManager(real, nput)
+    mod.get_multi_processing_manager = lambda: man
+    try:
+        yield nput
+    finally:
+        mod.get_multi_processing_manager = saved
+
+
 class Boom(Exception):
     pass
 
@@ -98,263 +198,516 @@ class ReBoom(Exception):
     pass
 
 
-def run_threads(nt, nw, fails, reraise, order=None, started_sets=None, delays=None, step_timeout=5.0):
-    """Run the real executor in thread mode.  order: forced completion order (1-based task ids)."""
+def _task(k, i, fails, reraise):
+    if i in reraise:
+        raise ReBoom(i)
+    if i in fails:
+        raise Boom(i)
+    return 100 * k + i
+
+
+def run_threads(nw, execs, *, max_tasks=None, single_worker=False, cb_form="callable"):
+    """Run consecutive executions on ONE real executor object in thread mode.
+
+    execs: list of dicts {n, fails, reraise, order (forced completion order, 1-based) | None, started
+    (the running set the specification allows before each finish) | None, delays | None}.
+    Returns (events, results per execution, problems)."""
     import gemseo.core.parallel_execution.callable_parallel_execution as mod
 
     rec = Recorder()
-    rec.wid()  # main = 0
-    gates = [threading.Event() for _ in range(nt)]
-    started = [threading.Event() for _ in range(nt)]
+    wait = patience()
+    nmax = max_tasks or max([x["n"] for x in execs] + [1])
+    gates = {(k, i): threading.Event() for k, x in enumerate(execs, 1) for i in range(1, x["n"] + 1)}
+    started = {key: threading.Event() for key in gates}
+    begun = [threading.Event() for _ in execs]
+    ended = [threading.Event() for _ in execs]
 
-    def mk(i):
-        def f(x):
-            rec.emit(ev="run", w=rec.wid(), i=i + 1)
-            started[i].set()
-            if order is not None:
-                gates[i].wait()
-            elif delays:
-                time.sleep(delays[i])
-            if (i + 1) in reraise:
-                raise ReBoom(i + 1)
-            if (i + 1) in fails:
-                raise Boom(i + 1)
-            return 100 + x
-        return f
+    def body(x):
+        k, i = x
+        spec = execs[k - 1]
+        rec.emit(ev="run", w=rec.wid(), i=i)
+        started[(k, i)].set()
+        if spec.get("order") is not None:
+            gates[(k, i)].wait()
+        elif spec.get("delays"):
+            time.sleep(spec["delays"][i - 1])
+        return _task(k, i, spec["fails"], spec["reraise"])
 
-    workers = [mk(i) for i in range(nt)]
-    res = {}
+    def mk():
+        return lambda x: body(x)
+
+    workers = [mk()] if single_worker else [mk() for _ in range(nmax)]
+    results = [dict() for _ in execs]
 
     def cb(i, o):
         rec.emit(ev="callback", w=rec.wid(), i=i + 1, val=o if isinstance(o, int) else 0)
 
     def target():
-        rec.tids[threading.get_ident()] = 0
         saved = mod.queue
         mod.queue = make_queue_ns(rec)
         try:
             ex = mod.CallableParallelExecution(workers, n_processes=nw, use_threading=True,
                                                exceptions_to_re_raise=(ReBoom,))
-            res["out"] = ex.execute([i + 1 for i in range(nt)], exec_callback=cb)
-        except ReBoom as e:
-            res["raised"] = e.args[0]
-        except BaseException as e:  # noqa: BLE001
-            res["error"] = e
+            for k, spec in enumerate(execs, 1):
+                res = results[k - 1]
+                # thread numbering restarts at each execution: main 0, workers by first appearance
+                with rec.lock:
+                    rec.tids.clear()
+                    rec.tids[threading.get_ident()] = 0
+                rec.emit(ev="start", w=0, n=spec["n"], fails=sorted(spec["fails"]), reraise=sorted(spec["reraise"]))
+                begun[k - 1].set()
+                try:
+                    callbacks = {"callable": cb, "list": [cb], "tuple": (cb,)}[cb_form]
+                    res["out"] = ex.execute([(k, i) for i in range(1, spec["n"] + 1)], exec_callback=callbacks)
+                    rec.emit(ev="return", w=0, out=norm_out(res["out"]))
+                except ReBoom as e:
+                    res["raised"] = e.args[0]
+                    rec.emit(ev="raise", w=0, i=e.args[0])
+                except BaseException as e:  # noqa: BLE001
+                    res["error"] = e
+                ended[k - 1].set()
+                if "error" in res:
+                    break
         finally:
             mod.queue = saved
+            for ev in begun + ended:
+                ev.set()
 
-    rec.tids.clear()
-    th = threading.Thread(target=target)
-    import contextlib
-    import io
+    th = threading.Thread(target=target, daemon=True)
     problems = []
     with contextlib.redirect_stderr(io.StringIO()):
         th.start()
-        if order is not None:
-            for k, i in enumerate(order):
-                if not started[i - 1].wait(step_timeout):
-                    problems.append(f"task {i} never started although the specification allows it to finish at step {k}")
-                    break
-                if started_sets is not None:
-                    # wait for quiescence of the set of running tasks, then compare with the spec
-                    want = set(started_sets[k])
-                    deadline = time.time() + step_timeout
-                    done = set(order[:k])
-                    while time.time() < deadline:
-                        got = {j + 1 for j in range(nt) if started[j].is_set()} - done
-                        if got == want:
-                            break
-                        time.sleep(0.0005)
-                    else:
-                        problems.append(f"running set before finish #{k}: impl {sorted(got)} spec {sorted(want)}")
+        for k, spec in enumerate(execs, 1):
+            if not begun[k - 1].wait(wait) or problems:
+                break
+            order = spec.get("order")
+            if order is not None:
+                for pos, i in enumerate(order):
+                    if not started[(k, i)].wait(wait):
+                        if ended[k - 1].is_set():
+                            break  # the execution is over (an exception of the executor): reported from its result
+                        problems.append(f"execution {k}: task {i} never started although the specification allows it to finish at step {pos}")
                         break
-                n0 = rec.count("out_put")
-                gates[i - 1].set()
-                deadline = time.time() + step_timeout
-                while rec.count("out_put") <= n0 and time.time() < deadline:
-                    time.sleep(0.0002)
-            for g in gates:
-                g.set()
-        th.join(30)
-    if th.is_alive():
-        problems.append("execute() did not terminate within 30 s")
-    # worker ids: main 0, workers numbered by first appearance 1..W
-    return rec.events, res, problems
+                    if spec.get("started") is not None:
+                        # wait for quiescence of the set of running tasks, then compare with the spec
+                        want = set(spec["started"][pos])
+                        done = set(order[:pos])
+                        deadline = time.time() + wait
+                        got = None
+                        while time.time() < deadline:
+                            got = {j for j in range(1, spec["n"] + 1) if started[(k, j)].is_set()} - done
+                            if got == want:
+                                break
+                            time.sleep(0.0005)
+                        else:
+                            problems.append(f"execution {k}: running set before finish #{pos}: impl {sorted(got)} spec {sorted(want)}")
+                            break
+                    n0 = rec.count("out_put")
+                    gates[(k, i)].set()
+                    deadline = time.time() + wait
+                    while rec.count("out_put") <= n0 and time.time() < deadline and not ended[k - 1].is_set():
+                        time.sleep(0.0002)
+                for key, g in gates.items():
+                    if key[0] == k:
+                        g.set()
+            if not ended[k - 1].wait(3 * wait):
+                problems.append(f"execution {k}: execute() did not terminate within {3 * wait:.0f} s")
+                break
+        for g in gates.values():
+            g.set()
+        th.join(wait)
+    return rec.events, results, problems
 
 
 def norm_out(out):
     return [0 if o is None else o for o in out]
 
 
-def run_processes(nt, nw, fails, reraise, delays):
-    import gemseo.core.parallel_execution.callable_parallel_execution as mod
+class _ProcTask:
+    def __init__(self, execs, gates, started):
+        self.execs = execs
+        self.gates = gates
+        self.started = started
+
+    def __call__(self, x):
+        k, i = x
+        spec = self.execs[k - 1]
+        self.started[(k, i)].set()
+        if spec.get("order") is not None:
+            self.gates[(k, i)].wait(600)
+        elif spec.get("delays"):
+            time.sleep(spec["delays"][i - 1])
+        return _task(k, i, spec["fails"], spec["reraise"])
+
+
+def run_processes(nw, execs, *, cb_form="callable"):
+    """The same on the process back-end (fork): consecutive executions on ONE executor object, forced
+    completion orders through inherited events, the queue order observed through ObsQueue."""
     import multiprocessing as mp
 
-    cbs = []
+    import gemseo.core.parallel_execution.callable_parallel_execution as mod
 
-    class F:
-        def __init__(self, i):
-            self.i = i
+    ctx = mp.get_context("fork")
+    wait = patience()
+    gates = {(k, i): ctx.Event() for k, x in enumerate(execs, 1) for i in range(1, x["n"] + 1)}
+    started = {key: ctx.Event() for key in gates}
+    begun = [threading.Event() for _ in execs]
+    ended = [threading.Event() for _ in execs]
+    results = [dict() for _ in execs]
+    problems = []
+    with observed_processes() as nput, contextlib.redirect_stderr(io.StringIO()):
+        def target():
+            try:
+                ex = mod.CallableParallelExecution([_ProcTask(execs, gates, started)], n_processes=nw,
+                                                   use_threading=False, exceptions_to_re_raise=(ReBoom,))
+                for k, spec in enumerate(execs, 1):
+                    res = results[k - 1]
+                    res["cb"] = []
 
-        def __call__(self, x):
-            time.sleep(delays[self.i])
-            if (self.i + 1) in reraise:
-                raise ReBoom(self.i + 1)
-            if (self.i + 1) in fails:
-                raise Boom(self.i + 1)
-            return 100 + x
+                    def cb(i, o, res=res):
+                        res["cb"].append((i + 1, o if isinstance(o, int) else 0))
 
-    res = {}
-    import contextlib
-    import io
-    with contextlib.redirect_stderr(io.StringIO()):
-        try:
-            ex = mod.CallableParallelExecution([F(i) for i in range(nt)], n_processes=nw, use_threading=False,
-                                               exceptions_to_re_raise=(ReBoom,))
-            res["out"] = ex.execute([i + 1 for i in range(nt)], exec_callback=lambda i, o: cbs.append((i + 1, o)))
-        except ReBoom as e:
-            res["raised"] = e.args[0]
-        except BaseException as e:  # noqa: BLE001
-            res["error"] = e
-    return res, cbs
+                    begun[k - 1].set()
+                    try:
+                        callbacks = {"callable": cb, "list": [cb], "tuple": (cb,)}[cb_form]
+                        res["out"] = ex.execute([(k, i) for i in range(1, spec["n"] + 1)], exec_callback=callbacks)
+                    except ReBoom as e:
+                        res["raised"] = e.args[0]
+                    except BaseException as e:  # noqa: BLE001
+                        res["error"] = e
+                    ended[k - 1].set()
+                    if "error" in res:
+                        break
+            finally:
+                for ev in begun + ended:
+                    ev.set()
+
+        th = threading.Thread(target=target, daemon=True)
+        th.start()
+        for k, spec in enumerate(execs, 1):
+            if not begun[k - 1].wait(wait) or problems:
+                break
+            order = spec.get("order")
+            if order is not None:
+                with nput.get_lock():
+                    base = nput.value
+                for pos, i in enumerate(order):
+                    while not started[(k, i)].wait(0.05):
+                        if ended[k - 1].is_set():
+                            break
+                    if ended[k - 1].is_set() and not started[(k, i)].is_set():
+                        break
+                    gates[(k, i)].set()
+                    deadline = time.time() + wait
+                    while nput.value < base + pos + 1 and time.time() < deadline and not ended[k - 1].is_set():
+                        time.sleep(0.001)
+                for key, g in gates.items():
+                    if key[0] == k:
+                        g.set()
+            if not ended[k - 1].wait(6 * wait):
+                problems.append(f"execution {k}: execute() did not terminate within {6 * wait:.0f} s")
+                break
+        for g in gates.values():
+            g.set()
+        th.join(wait)
+    return results, problems
+
+
+# ------------------------------------------------------------------ histories from the specification
+
+def parse_hists(r):
+    """HIST records printed by TLC -> list of histories (tuples of per-execution dicts)."""
+    out = []
+    seen = set()
+    for v in r.printed():
+        if isinstance(v, tuple) and len(v) == 2 and v[0] == "HIST":
+            h = tuple(v[1])
+            key = repr(h)
+            if key in seen:
+                continue
+            seen.add(key)
+            out.append(h)
+    return out
+
+
+def exec_key(h):
+    return (h["n"], frozenset(h["fails"]), frozenset(h["reraise"]), tuple(h["flog"]))
+
+
+def compare_exec(ck, sig, case, k, h, res, cb_impl, *, exact_order):
+    """One execution of a history against the specification's record h (values computed by TLC)."""
+    if "error" in res:
+        ck.violation("Terminates", dict(sig, exception=type(res["error"]).__name__), dict(case, execution=k, error=repr(res["error"])))
+        return False
+    ok = True
+    if h["raised"] != ("raised" in res):
+        ck.violation("RaiseIff", sig, dict(case, execution=k, spec_raised=h["raised"], impl={a: str(b) for a, b in res.items()}))
+        return False
+    spec_cb = [tuple(c) for c in h["cb"]]
+    if not h["raised"]:
+        if norm_out(res["out"]) != list(h["ordered"]):
+            ck.violation("Positional", sig, dict(case, execution=k, spec=list(h["ordered"]), impl=res["out"]))
+            ok = False
+        if (cb_impl != spec_cb) if exact_order else (sorted(cb_impl) != sorted(spec_cb)):
+            ck.violation("CallbackOrder" if sorted(cb_impl) == sorted(spec_cb) else "CallbackMatches", sig,
+                         dict(case, execution=k, spec=spec_cb, impl=cb_impl))
+            ok = False
+    else:
+        # the queue is FIFO and the collection stops at the first re-raised failure: the callbacks are those
+        # of the successes put before it, the exception is that one
+        if exact_order:
+            if res["raised"] != h["who"]:
+                ck.violation("RaiseIff", dict(sig, part="which"), dict(case, execution=k, spec=h["who"], impl=res["raised"]))
+                ok = False
+            if cb_impl != spec_cb:
+                ck.violation("CallbackMatches", sig, dict(case, execution=k, spec=spec_cb, impl=cb_impl))
+                ok = False
+        else:
+            good = {(i, 100 * k + i) for i in range(1, h["n"] + 1) if i not in h["fails"]}
+            if res["raised"] not in h["reraise"] or any(c not in good for c in cb_impl) or len(set(cb_impl)) != len(cb_impl):
+                ck.violation("CallbackMatches", sig, dict(case, execution=k, raised=res["raised"], impl=cb_impl))
+                ok = False
+    return ok
+
+
+def split_callbacks(events):
+    """Callback log per execution from a thread-mode event list."""
+    out, cur = [], None
+    for e in events:
+        if e["ev"] == "start":
+            cur = []
+            out.append(cur)
+        elif e["ev"] == "callback" and cur is not None:
+            cur.append((e["i"], e["val"]))
+    return out
+
+
+def replay_history(ck, rng, backend, nw, hist, records, sig, *, retries=2):
+    """Force a TLC history on one real executor object; compare every execution with the specification."""
+    execs = []
+    for h in hist:
+        st = records.get(nw, {}).get(exec_key(h))
+        execs.append({"n": h["n"], "fails": set(h["fails"]), "reraise": set(h["reraise"]), "order": list(h["flog"]),
+                      "started": [set(s) for s in st[0]] if (st and backend == "threads") else None})
+    case = {"backend": backend, "n_workers": nw,
+            "executions": [{"n_tasks": x["n"], "fails": sorted(x["fails"]), "reraise": sorted(x["reraise"]),
+                            "finish_order": x["order"]} for x in execs]}
+    form = rng.choice(["callable", "list", "tuple"])
+    for attempt in range(retries + 1):
+        if backend == "threads":
+            events, results, problems = run_threads(nw, execs, max_tasks=max([x["n"] for x in execs] + [1]),
+                                                    single_worker=rng.random() < 0.5, cb_form=form)
+            cbs = split_callbacks(events)
+        else:
+            results, problems = run_processes(nw, execs, cb_form=form)
+            cbs = [r.get("cb", []) for r in results]
+        if not problems or any("error" in r for r in results):
+            break
+    if problems and not any("error" in r for r in results):
+        # persistent after retries with load-aware bounds: the real pool cannot follow a schedule of the model
+        ck.violation("ScheduleAdmissible", sig, dict(case, problems=problems))
+        return False
+    ok = True
+    for k, (h, res) in enumerate(zip(hist, results), 1):
+        if not res:
+            ck.violation("Terminates", sig, dict(case, execution=k, problem="the execution did not take place"))
+            return False
+        cb_impl = cbs[k - 1] if k - 1 < len(cbs) else []
+        ok = compare_exec(ck, dict(sig, execution=min(k, 2)), case, k, h, res, cb_impl, exact_order=True) and ok
+        if "error" in res:
+            break
+    if ok:
+        ck.traces += 1
+    return ok
 
 
 def run(ck: Check):
     rng = random.Random(ck.seed)
     max_t = 4 if ck.thorough else 3
-    grid = [(nt, nw) for nt in range(0, max_t + 1) for nw in (1, 2, 3)]
+    counts = list(range(0, max_t + 1))
+    # ---- 1. exhaustive model checking, safety (VIEW hides observation variables) + liveness; consecutive
+    #         executions on one object; the design that keeps the queues is refuted
+    acts = ("Start", "Fill", "Collect", "Sentinels", "Join", "Raise", "Close", "Take", "Run", "Finish")
+    jobs = [("ParallelExec", cfg(counts, 1, nexec=3), dict(workers=2, timeout=900, require_actions=acts)),
+            ("ParallelExec", cfg(counts, 2, nexec=3 if ck.thorough else 2), dict(workers=2, timeout=900, require_actions=acts)),
+            ("ParallelExec", cfg(counts, 3, nexec=2 if ck.thorough else 1), dict(workers=4, timeout=1500, require_actions=acts))]
     if ck.thorough:
-        grid += [(5, 2)]
-    # ---- 1. exhaustive model checking, safety (VIEW hides observation variables) + liveness
-    for nt, nw in grid:
-        ck.tlc("ParallelExec", cfg(nt, nw), workers=8, timeout=900,
-               require_actions=("Fill", "Collect", "Sentinels", "Join", "Raise") + (("Take", "Run", "Finish") if nt else ()))
-    # ---- 2. completion orders from the spec, replayed on the real thread back-end
-    n_orders = 0
-    replay_grid = [(nt, nw) for nt, nw in grid if nt <= (4 if ck.thorough else 3)]
-    for nt, nw in replay_grid:
-        r = ck.tlc("ParallelExec", cfg(nt, nw, view=False, liveness=False, orders=True), workers=1,
-                   timeout=900, count=False, coverage=False)
-        recs = {}
-        for v in r.printed():
-            if isinstance(v, tuple) and v and v[0] == "ORDER":
-                _, fails, reraise, flog, started_at, ordered, cblog, raised = v
-                key = (fails, reraise, flog)
-                if key in recs:
-                    # the running set the implementation reaches at quiescence is the largest one the
-                    # specification allows for this completion order (workers take eagerly)
-                    old = recs[key]
-                    recs[key] = (tuple(a | b for a, b in zip(old[0], started_at)), ordered, cblog, raised)
-                else:
-                    recs[key] = (started_at, ordered, cblog, raised)
-        if not recs:
-            raise MachineryError("no ORDER record printed by TLC")
-        items = sorted(recs.items(), key=lambda kv: (sorted(kv[0][0]), sorted(kv[0][1]), kv[0][2]))
-        # the early-stop path leaves cbLog/ordered schedule-dependent: group all admissible outcomes
-        budget = None if ck.thorough else 140
-        if budget and len(items) > budget:
-            items = rng.sample(items, budget)
-        for (fails, reraise, flog), (started_at, ordered, cblog, raised) in items:
-            n_orders += 1
-            sig = {"what": "forced_order", "n_tasks": nt, "n_workers": nw}
-            case = {"n_tasks": nt, "n_workers": nw, "fails": sorted(fails), "reraise": sorted(reraise),
-                    "finish_order": list(flog)}
-            ck.sample(case)
-            events, res, problems = run_threads(nt, nw, fails, reraise, order=list(flog),
-                                                started_sets=[set(s) for s in started_at])
-            if "error" in res:
-                ck.violation("Terminates", dict(sig, n_tasks=nt, exception=type(res["error"]).__name__),
-                             dict(case, error=repr(res["error"])))
-                continue
-            if problems:
-                ck.violation("ScheduleAdmissible", sig, dict(case, problems=problems))
-                continue
-            # outcomes admissible for this (fails, reraise, order): collected from all spec records
-            if raised != ("raised" in res):
-                ck.violation("RaiseIff", sig, dict(case, spec_raised=raised, impl=str(res)))
-                continue
-            cb_impl = [(e["i"], e["val"]) for e in events if e["ev"] == "callback"]
-            if not raised:
-                if norm_out(res["out"]) != list(ordered):
-                    ck.violation("Positional", sig, dict(case, spec=list(ordered), impl=res["out"]))
-                if cb_impl != [tuple(c) for c in cblog]:
-                    ck.violation("CallbackOrder", sig, dict(case, spec=list(cblog), impl=cb_impl))
+        jobs.append(("ParallelExec", cfg([5], 2, nexec=1), dict(workers=2, timeout=900)))
+    else:
+        jobs.append(("ParallelExec", cfg([0, 1, 2], 3, nexec=2), dict(workers=2, timeout=900)))
+    refuted = ("ExecutionsIndependent", "Positional", "CallbackMatches")
+    for inv in refuted:
+        jobs.append(("ParallelExec", cfg([1, 2, 3], 2, nexec=2, persist=True, liveness=False, invs=[inv]),
+                     dict(workers=1, timeout=600, expect_ok=False, count=False, coverage=False)))
+    # ---- 2a. completion orders of ONE execution (all numbers of tasks) for each number of workers
+    for nw in (1, 2, 3):
+        # (without the VIEW every interleaving is a state: 4 tasks on 3 workers are left to the exhaustive runs above)
+        jobs.append(("ParallelExec", cfg([c for c in counts if c <= 3 or nw < 3], nw, nexec=1, view=False, liveness=False,
+                                         orders=True, invs=["Positional"]),
+                     dict(workers=1, timeout=1500, count=False, coverage=False)))
+    # ---- 2b. histories of consecutive executions on one object (random behaviours of the model)
+    n_sim = 1200 if ck.thorough else 400
+    for nw in (2, 3):
+        jobs.append(("ParallelExec", cfg([1, 2, 3] if nw == 2 else [2, 3, 4], nw, nexec=3, view=False, liveness=False,
+                                         orders=True, invs=["Positional", "ExecutionsIndependent"]),
+                     dict(workers=1, timeout=900, count=False, coverage=False, simulate=f"num={n_sim}", depth=400,
+                          seed=ck.seed + 11)))
+    res = tlc_many(ck, jobs)
+    n_ver = len(jobs) - len(refuted) - 5
+    for inv, r in zip(refuted, res[n_ver:n_ver + len(refuted)]):
+        if r.violated != inv:
+            raise MachineryError(f"the design that keeps the queues between executions is not refuted on {inv} (TLC: {r.violated})")
+    ck.extra["persistent_queues_refuted_on"] = list(refuted)
+    order_runs = res[n_ver + len(refuted):n_ver + len(refuted) + 3]
+    sim_runs = res[n_ver + len(refuted) + 3:]
+    records = {}
+    for nw, r in zip((1, 2, 3), order_runs):
+        recs = records.setdefault(nw, {})
+        for hist in parse_hists(r):
+            h = hist[0]
+            key = exec_key(h)
+            if key in recs:
+                # the running set the implementation reaches at quiescence is the largest one the
+                # specification allows for this completion order (workers take eagerly)
+                old = recs[key]
+                recs[key] = (tuple(a | b for a, b in zip(old[0], h["started"])), h)
             else:
-                # with an early stop the collected prefix depends on the interleaving of Collect with
-                # Finish; the callback log must be a prefix-consistent subsequence of successes
-                ok_tasks = [i for i in flog if i not in fails]
-                if any(c not in [(i, 100 + i) for i in ok_tasks] for c in cb_impl) or len(set(cb_impl)) != len(cb_impl):
-                    ck.violation("CallbackMatches", sig, dict(case, impl=cb_impl))
-            ck.traces += 1
-    # ---- 3. free-running executions, recorded, validated by ParallelExecTrace
-    groups: dict[tuple, list] = {}
-    n_free = 400 if ck.thorough else 60
+                recs[key] = (tuple(h["started"]), h)
+        if not recs:
+            raise MachineryError("no HIST record printed by TLC")
+    # ---- 2a'. single executions, every completion order, on the thread back-end
+    n_orders = 0
+    for nw in (1, 2, 3):
+        items = sorted(records[nw].items(), key=lambda kv: (kv[0][0], sorted(kv[0][1]), sorted(kv[0][2]), kv[0][3]))
+        small = [it for it in items if it[0][0] <= 2]
+        big = [it for it in items if it[0][0] > 2]
+        budget = None if ck.thorough else 110
+        if budget and len(big) > budget:
+            big = rng.sample(big, budget)
+        for key, (started, h) in small + big:
+            n_orders += 1
+            sig = {"what": "forced_order", "n_tasks": h["n"], "n_workers": nw}
+            ck.sample({"n_tasks": h["n"], "n_workers": nw, "fails": sorted(h["fails"]), "reraise": sorted(h["reraise"]),
+                       "finish_order": list(h["flog"])})
+            replay_history(ck, rng, "threads", nw, (h,), records, sig)
+    # ---- 2b'. histories on one object: threads (many), processes (those whose early stop leaves results behind first)
+    n_hist = {"threads": 0, "processes": 0}
+    n_left = {"threads": 0, "processes": 0}
+    for nw, r in zip((2, 3), sim_runs):
+        hists = parse_hists(r)
+        if not hists:
+            raise MachineryError("no simulated history printed by TLC")
+        # interesting first: an execution that is not the last one ends with results still in flight
+        left = [h for h in hists if any(x["left"] > 0 for x in h[:-1])]
+        rest = [h for h in hists if h not in left]
+        ck.extra[f"histories_in_model_nw{nw}"] = len(hists)
+        ck.extra[f"histories_with_results_left_behind_nw{nw}"] = len(left)
+        if not left:
+            raise MachineryError("vacuity: no simulated history stops early with results left in the output queue")
+        plan = {"threads": (rng.sample(left, min(len(left), 60 if ck.thorough else 20))
+                            + rng.sample(rest, min(len(rest), 60 if ck.thorough else 15))),
+                "processes": (rng.sample(left, min(len(left), 12 if ck.thorough else 3))
+                              + rng.sample(rest, min(len(rest), 4 if ck.thorough else 1)))}
+        for backend, chosen in plan.items():
+            for hist in chosen:
+                sig = {"what": "history_on_one_object", "backend": backend, "n_workers": nw}
+                if n_hist[backend] < 2:
+                    ck.sample({"backend": backend, "n_workers": nw,
+                               "executions": [{"n_tasks": x["n"], "fails": sorted(x["fails"]), "reraise": sorted(x["reraise"]),
+                                               "finish_order": list(x["flog"]), "left_in_queue": x["left"]} for x in hist]}, limit=10)
+                replay_history(ck, rng, backend, nw, hist, records, sig)
+                n_hist[backend] += 1
+                n_left[backend] += any(x["left"] > 0 for x in hist[:-1])
+    ck.extra["histories_replayed"] = n_hist
+    ck.extra["histories_replayed_with_results_left_behind"] = n_left
+    # ---- 3. free-running executions (several per object), recorded, validated by ParallelExecTrace
+    groups: dict[int, list] = {}
+    n_free = 300 if ck.thorough else 45
+    max_free = 6 if ck.thorough else 5
     for k in range(n_free):
-        nt = rng.randint(0, 6 if ck.thorough else 5)
         nw = rng.randint(1, 4)
-        fails = {i for i in range(1, nt + 1) if rng.random() < 0.25}
-        reraise = {i for i in fails if rng.random() < 0.3}
-        delays = [rng.choice([0, 0, 0.001, 0.003, 0.008]) for _ in range(nt)]
-        events, res, problems = run_threads(nt, nw, fails | reraise, reraise, delays=delays)
-        sig = {"what": "free_run", "n_tasks": nt}
-        if "error" in res:
-            ck.violation("Terminates", dict(sig, exception=type(res["error"]).__name__),
-                         {"n_tasks": nt, "n_workers": nw, "error": repr(res["error"])})
+        execs = []
+        for _ in range(rng.choice([1, 2, 2, 3])):
+            nt = rng.randint(0, max_free)
+            fails = {i for i in range(1, nt + 1) if rng.random() < 0.25}
+            reraise = {i for i in fails if rng.random() < 0.3}
+            execs.append({"n": nt, "fails": fails, "reraise": reraise, "order": None,
+                          "delays": [rng.choice([0, 0, 0.001, 0.003, 0.008]) for _ in range(nt)]})
+        events, results, problems = run_threads(nw, execs, max_tasks=max_free, single_worker=rng.random() < 0.3,
+                                                cb_form=rng.choice(["callable", "list", "tuple"]))
+        sig = {"what": "free_run"}
+        err = next((r["error"] for r in results if "error" in r), None)
+        if err is not None:
+            ck.violation("Terminates", dict(sig, exception=type(err).__name__),
+                         {"n_workers": nw, "executions": [{"n_tasks": x["n"], "fails": sorted(x["fails"])} for x in execs], "error": repr(err)})
             continue
         if problems:
             ck.violation("Terminates", sig, {"problems": problems})
             continue
-        if "raised" in res:
-            events.append({"ev": "raise", "w": 0, "i": res["raised"]})
-        else:
-            events.append({"ev": "return", "w": 0, "out": norm_out(res["out"])})
-        groups.setdefault((nt, nw), []).append(
-            {"id": k, "fails": sorted(fails | reraise), "reraise": sorted(reraise), "events": events})
-    validate_traces(ck, groups)
-    # ---- 4. process back-end: outcome must be a terminal state of the spec
-    n_proc = 24 if ck.thorough else 6
+        groups.setdefault(nw, []).append({"id": k, "events": events})
+    validate_traces(ck, groups, max_free)
+    # ---- 4. process back-end, free running: the outcome of every execution must be a terminal state of the spec
+    n_proc = 16 if ck.thorough else 4
     for k in range(n_proc):
-        nt = rng.randint(1, 5)
         nw = rng.randint(1, 3)
-        fails = {i for i in range(1, nt + 1) if rng.random() < 0.3}
-        delays = [rng.choice([0, 0.01, 0.03]) for _ in range(nt)]
-        res, cbs = run_processes(nt, nw, fails, set(), delays)
-        sig = {"what": "process_run", "n_tasks": nt}
-        case = {"n_tasks": nt, "n_workers": nw, "fails": sorted(fails), "delays": delays}
-        if "error" in res:
-            ck.violation("Terminates", dict(sig, exception=type(res["error"]).__name__), dict(case, error=repr(res["error"])))
+        execs = []
+        for _ in range(2):
+            nt = rng.randint(1, 5)
+            fails = {i for i in range(1, nt + 1) if rng.random() < 0.3}
+            reraise = {i for i in fails if rng.random() < 0.25}
+            execs.append({"n": nt, "fails": fails, "reraise": reraise, "order": None,
+                          "delays": [rng.choice([0, 0.01, 0.03]) for _ in range(nt)]})
+        results, problems = run_processes(nw, execs, cb_form=rng.choice(["callable", "list", "tuple"]))
+        sig = {"what": "process_run"}
+        case = {"n_workers": nw, "executions": [{"n_tasks": x["n"], "fails": sorted(x["fails"]), "reraise": sorted(x["reraise"]),
+                                                  "delays": x["delays"]} for x in execs]}
+        if problems and not any("error" in r for r in results):
+            ck.violation("Terminates", sig, dict(case, problems=problems))
             continue
-        want = [0 if i in fails else 100 + i for i in range(1, nt + 1)]
-        if norm_out(res["out"]) != want:
-            ck.violation("Positional", sig, dict(case, spec=want, impl=res["out"]))
-        if sorted(cbs) != sorted((i, 100 + i) for i in range(1, nt + 1) if i not in fails):
-            ck.violation("CallbackOnce", sig, dict(case, impl=cbs))
-        ck.traces += 1
+        ok = True
+        for kk, (x, res) in enumerate(zip(execs, results), 1):
+            # the terminal state of the specification for these tasks (Positional, CallbackAll, RaiseIff:
+            # it raises iff a task fails with a re-raised type; otherwise every slot holds its own value)
+            h = {"n": x["n"], "fails": x["fails"], "reraise": x["reraise"], "raised": bool(x["reraise"]),
+                 "ordered": [0 if i in x["fails"] else 100 * kk + i for i in range(1, x["n"] + 1)],
+                 "cb": [(i, 100 * kk + i) for i in range(1, x["n"] + 1) if i not in x["fails"]], "who": None}
+            ok = compare_exec(ck, dict(sig, execution=kk), case, kk, h, res, res.get("cb", []), exact_order=False) and ok
+            if "error" in res:
+                break
+        if ok:
+            ck.traces += 1
     ck.extra["forced_orders_replayed"] = n_orders
     ck.extra["free_thread_traces"] = sum(len(v) for v in groups.values())
     ck.extra["process_runs"] = n_proc
     from . import c13_clients
-    c13_clients.run(ck, rng)
+    c13_clients.run(ck, rng, records)
     ck.exhaustive = False
     ck.assumptions += [
         "queue.Queue is replaced in the harness process by a logging subclass (test double) to observe put/get inside the queue mutex",
-        "process back-end: only outcomes are compared (manager queues are not observable without a hook)",
+        "process back-end: the managed queues are wrapped by a delegating test double that counts the completed puts "
+        "(forced completion orders); free-running process executions are compared by outcome only",
+        "time-outs of gated replays are load-aware (20 s x load average per core) and a schedule is retried twice before it is reported",
     ]
 
 
-def validate_traces(ck: Check, groups):
-    for (nt, nw), traces in sorted(groups.items()):
-        # worker ids in events: map thread numbering (first appearance) onto 1..NW
+def validate_traces(ck: Check, groups, max_tasks):
+    jobs, metas = [], []
+    for nw, traces in sorted(groups.items()):
+        # worker ids in events: thread numbering (first appearance within the execution) onto 1..NW
         for t in traces:
             remap = {0: 0}
             for e in t["events"]:
+                if e["ev"] == "start":
+                    remap = {0: 0}
                 if e["w"] not in remap:
                     remap[e["w"]] = len(remap)
                 e["w"] = remap[e["w"]]
-        f = ck.work / f"pe-traces-{nt}-{nw}.json"
+        f = ck.work / f"pe-traces-{nw}.json"
         f.write_text(json.dumps(traces))
-        r = ck.tlc("ParallelExecTrace", cfg(nt, nw, trace=True), workers=1, timeout=900, count=False,
-                   env={"TRACE_FILE": str(f)}, coverage=False, depth_first=True)
+        jobs.append(("ParallelExecTrace", cfg(range(0, max_tasks + 1), nw, nexec=3, trace=True),
+                     dict(workers=1, timeout=900, count=False, env={"TRACE_FILE": str(f)}, coverage=False, depth_first=True)))
+        metas.append((nw, traces))
+    for (nw, traces), r in zip(metas, tlc_many(ck, jobs)):
         verdict = {}
         for v in r.printed():
             if isinstance(v, tuple) and v and v[0] == "TRACE":
@@ -365,9 +718,9 @@ def validate_traces(ck: Check, groups):
             reached, total = verdict[t["id"]]
             if reached != total:
                 nxt = t["events"][reached] if reached < len(t["events"]) else None
-                ck.violation("TraceConformance", {"what": "free_run", "n_tasks": nt, "event": nxt and nxt["ev"]},
-                             {"n_tasks": nt, "n_workers": nw, "fails": t["fails"], "reraise": t["reraise"],
-                              "matched_prefix": reached, "next_event": nxt, "events": t["events"]})
+                n_exec = sum(1 for e in t["events"][:reached + 1] if e["ev"] == "start")
+                ck.violation("TraceConformance", {"what": "free_run", "execution": min(n_exec, 2), "event": nxt and nxt["ev"]},
+                             {"n_workers": nw, "matched_prefix": reached, "next_event": nxt, "events": t["events"]})
             else:
                 ck.traces += 1
         ck.states += r.distinct
